@@ -132,7 +132,8 @@ class USpec:
     """basis function (node a, component c) at one point: value N_a, gradient dN_a (x) e_c"""
 
     def __init__(self, N, dN, dof_n, comp):
-        self.value = PT(XArray((1,), [N]))  # Field.__call__ gives the 1-vector [N_a]
+        # a scalar field is the 1-vector [N_a]; a vector field is N_a e_c (the shape function carried by its component)
+        self.value = PT(XArray((1,), [N])) if dof_n == 1 else PT(XArray((dof_n,), [N if c == comp else Q(0) for c in range(dof_n)]))
         dim = len(dN)
         if dof_n == 1:
             self.grad = PT(XArray((dim,), list(dN)))
